@@ -1245,9 +1245,38 @@ func (x *Exec) siteClauses(kind, name string) []*Clause {
 	return cs
 }
 
+// siteReachedObligations: a call-site assertion that no path evaluates is vacuous (the call it is
+// anchored at was removed or renamed, or every path to it died): one obligation per clause says it
+// was evaluated at least once.
+func (x *Exec) siteReachedObligations() {
+	if x.FC == nil {
+		return
+	}
+	var keys []string
+	for k := range x.FC.Sites {
+		if strings.HasPrefix(k, "assert:") || strings.HasPrefix(k, "assertafter:") {
+			keys = append(keys, k)
+		}
+	}
+	sort.Strings(keys)
+	for _, k := range keys {
+		for i, cl := range x.FC.Sites[k] {
+			o := &Obligation{Name: x.funcLabel() + ":site-reached:" + k[strings.Index(k, ":")+1:] + ":" + clauseLabel(cl, i), Kind: "site-reached",
+				Func: x.funcLabel(), Props: cl.Props, Goal: TTrue, Status: "unsat", Solver: "front-end",
+				Text: "the call site of the assertion '" + cl.Text + "' is reached on some path"}
+			if x.siteSeen[cl] == 0 {
+				o.Goal, o.Status = TFalse, "unreached"
+				o.Model = "no explored path evaluates this call-site assertion: the call it is anchored at is gone or unreachable"
+			}
+			x.Obls = append(x.Obls, o)
+		}
+	}
+}
+
 func (x *Exec) siteBefore(st *State, ins ssa.Instruction, name string, args []Value) {
 	env := x.siteEnv(st, args, nil)
 	for i, cl := range x.siteClauses("assert", name) {
+		x.siteSeen[cl]++
 		g := x.evalBool(env, cl.Expr)
 		x.oblige(st, "site", name+":"+clauseLabel(cl, i), g, cl.Text, ins, cl.Props)
 	}
@@ -1260,6 +1289,7 @@ func (x *Exec) siteBefore(st *State, ins ssa.Instruction, name string, args []Va
 func (x *Exec) siteAfter(st *State, ins ssa.Instruction, name string, args []Value, rv Value) {
 	env := x.siteEnv(st, args, rv)
 	for i, cl := range x.siteClauses("assertafter", name) {
+		x.siteSeen[cl]++
 		g := x.evalBool(env, cl.Expr)
 		x.oblige(st, "site", "after:"+name+":"+clauseLabel(cl, i), g, cl.Text, ins, cl.Props)
 		st.Assume(g)
